@@ -3,6 +3,7 @@ package main
 import (
 	"fmt"
 	"go/token"
+	"sort"
 	"strings"
 
 	"golang.org/x/tools/go/ssa"
@@ -732,6 +733,15 @@ func ruleSecondHelloEqualsFirst(c *Ctx, r *Report) {
 				toEnd = true
 			}
 		}
+		// ... or every parameter the first-hello parser takes from extensions is derived again
+		// from the second ClientHello, after it was validated: what the first one said then
+		// steers nothing
+		rederived, missing := c.secondHelloRederives()
+		if !toEnd && rederived {
+			r.OK(rule, short(callee)+":tail-covers-extensions", c.pos(callee.Pos()), "the extensions are not compared, but every extension-borne parameter is derived again from the validated second ClientHello")
+			break
+		}
+		_ = missing
 		r.Check(toEnd, rule, short(callee)+":tail-covers-extensions", c.pos(callee.Pos()), "the compared part behind the cookie runs to the end of the ClientHello", "the part of the ClientHello compared behind the cookie stops in front of the extensions: the extensions of the first ClientHello - from which the DTLS 1.2 server negotiates extended master secret, ALPN, server name, groups, signature algorithms and the protocol version - are neither compared with the second ClientHello nor covered by any Finished, so an on-path attacker who rewrites only the first ClientHello steers those parameters and both sides complete")
 		break
 	}
@@ -928,4 +938,307 @@ func funcDenoted(v ssa.Value, d int) *ssa.Function {
 		return out
 	}
 	return nil
+}
+
+// secondHelloRederives: the state fields that the DTLS 1.2 first-hello parser stores while it
+// switches over the ClientHello's extension types are all stored again by the second-hello parser
+// behind its validation call (through the same or another helper).
+func (c *Ctx) secondHelloRederives() (bool, []string) {
+	f0 := c.Fn(pkgF12 + ".flight0Parse")
+	f2 := c.Fn(pkgF12 + ".flight2Parse")
+	if f0 == nil || f2 == nil {
+		return false, nil
+	}
+	// fields stored by a function that switches over extension types
+	extFields := func(fn *ssa.Function) map[string]bool {
+		switches := false
+		out := map[string]bool{}
+		for _, b := range fn.Blocks {
+			for _, in := range b.Instrs {
+				switch x := in.(type) {
+				case *ssa.TypeAssert:
+					if strings.Contains(namedOrType(derefType(x.AssertedType)), "pkg/protocol/extension") {
+						switches = true
+					}
+				case *ssa.Store:
+					if o, f, _, ok := fieldOfAddr(x.Addr); ok && (strings.HasSuffix(o, "state.State12") || strings.HasSuffix(o, "state.Common")) {
+						out[f] = true
+					}
+				}
+			}
+		}
+		if !switches {
+			return nil
+		}
+		return out
+	}
+	collect := func(roots []*ssa.Function) map[string]bool {
+		out := map[string]bool{}
+		seen := map[*ssa.Function]bool{}
+		var visit func(fn *ssa.Function, d int)
+		visit = func(fn *ssa.Function, d int) {
+			if fn == nil || seen[fn] || d > 3 || len(fn.Blocks) == 0 || fn.Pkg != f0.Pkg {
+				return
+			}
+			seen[fn] = true
+			for f := range extFields(fn) {
+				out[f] = true
+			}
+			for _, b := range fn.Blocks {
+				for _, in := range b.Instrs {
+					if cl, ok := in.(*ssa.Call); ok {
+						visit(cl.Call.StaticCallee(), d+1)
+					}
+				}
+			}
+		}
+		for _, r := range roots {
+			visit(r, 0)
+		}
+		return out
+	}
+	first := collect([]*ssa.Function{f0})
+	if len(first) == 0 {
+		return false, nil
+	}
+	var validate *ssa.Call
+	for _, cl := range findCalls(f2, nameIs("internal/negotiation.ValidateHelloVerifyRequestResponse")) {
+		validate = cl
+	}
+	if validate == nil {
+		return false, nil
+	}
+	var after []*ssa.Function
+	for _, b := range f2.Blocks {
+		for _, in := range b.Instrs {
+			if cl, ok := in.(*ssa.Call); ok && cl != validate && instrReaches(validate, cl) && instrDominates(validate, cl) {
+				if callee := cl.Call.StaticCallee(); callee != nil {
+					after = append(after, callee)
+				}
+			}
+		}
+	}
+	second := collect(after)
+	// stores made by the second-hello parser itself behind the validation
+	for _, b := range f2.Blocks {
+		for _, in := range b.Instrs {
+			if st, ok := in.(*ssa.Store); ok && instrDominates(validate, st) {
+				if _, f, _, ok := fieldOfAddr(st.Addr); ok {
+					second[f] = true
+				}
+			}
+		}
+	}
+	var missing []string
+	for f := range first {
+		if !second[f] {
+			missing = append(missing, f)
+		}
+	}
+	sort.Strings(missing)
+	return len(missing) == 0, missing
+}
+
+// globalByteSlice reads the bytes a package-level []byte variable is initialised with (a slice
+// literal in the package initialiser): stores of constants into the elements of the backing array.
+func (c *Ctx) globalByteSlice(pkgSuffix, name string) ([]byte, *ssa.Global) {
+	for _, p := range c.Prog.AllPackages() {
+		if p.Pkg == nil || !strings.HasSuffix(p.Pkg.Path(), pkgSuffix) {
+			continue
+		}
+		g, ok := p.Members[name].(*ssa.Global)
+		if !ok {
+			continue
+		}
+		init := p.Func("init")
+		if init == nil {
+			return nil, g
+		}
+		var backing ssa.Value
+		for _, b := range init.Blocks {
+			for _, in := range b.Instrs {
+				if st, ok := in.(*ssa.Store); ok && st.Addr == ssa.Value(g) {
+					if sl, ok := st.Val.(*ssa.Slice); ok {
+						backing = sl.X
+					}
+				}
+			}
+		}
+		if backing == nil {
+			// an array-typed variable: built in a local literal that is then stored whole
+			backing = g
+			for _, b := range init.Blocks {
+				for _, in := range b.Instrs {
+					if st, ok := in.(*ssa.Store); ok && st.Addr == ssa.Value(g) {
+						if u, ok := st.Val.(*ssa.UnOp); ok {
+							backing = u.X
+						}
+					}
+				}
+			}
+		}
+		vals := map[int64]byte{}
+		max := int64(-1)
+		for _, b := range init.Blocks {
+			for _, in := range b.Instrs {
+				st, ok := in.(*ssa.Store)
+				if !ok {
+					continue
+				}
+				ia, ok := st.Addr.(*ssa.IndexAddr)
+				if !ok || ia.X != backing {
+					continue
+				}
+				i, okI := constInt(ia.Index)
+				v, okV := constInt(st.Val)
+				if okI && okV {
+					vals[i] = byte(v)
+					if i > max {
+						max = i
+					}
+				}
+			}
+		}
+		out := make([]byte, max+1)
+		for i, v := range vals {
+			out[i] = v
+		}
+		return out, g
+	}
+	return nil, nil
+}
+
+// ruleDowngradeSentinel (C04, C11): the version decision of a dual-stack server is taken from the
+// first ClientHello, which DTLS 1.2 keeps out of the transcript; what protects it is the
+// downgrade sentinel of RFC 8446 4.1.3. (a) With DTLS 1.3 enabled, the function that draws the
+// DTLS 1.2 server random copies the sentinel 44 4F 57 4E 47 52 44 01 into its last eight bytes;
+// (b) a DTLS 1.2 client parser that has DTLS 1.3 enabled cannot advance on a ServerHello whose
+// random ends in that sentinel.
+func ruleDowngradeSentinel(c *Ctx, r *Report) {
+	const rule = "downgrade-sentinel"
+	want := []byte{0x44, 0x4F, 0x57, 0x4E, 0x47, 0x52, 0x44, 0x01}
+	// the sentinel: a package-level byte slice of the flight package with exactly these bytes
+	var sentinel *ssa.Global
+	for _, p := range c.Prog.AllPackages() {
+		if p.Pkg == nil || !strings.HasSuffix(p.Pkg.Path(), pkgF12) {
+			continue
+		}
+		for name, m := range p.Members {
+			if _, ok := m.(*ssa.Global); !ok {
+				continue
+			}
+			if b, g := c.globalByteSlice(pkgF12, name); g != nil && string(b) == string(want) {
+				sentinel = g
+			}
+		}
+	}
+	if sentinel == nil {
+		r.Bad(rule, pkgF12+":sentinel", "", "no package-level value holds the downgrade sentinel 44 4F 57 4E 47 52 44 01: a dual-stack server's DTLS 1.2 ServerHello is not marked, so a client that offered DTLS 1.3 cannot tell that its supported_versions was stripped from the first ClientHello (which DTLS 1.2 keeps out of the transcript) and both sides complete on DTLS 1.2")
+		return
+	}
+	r.OK(rule, pkgF12+":sentinel", c.pos(sentinel.Pos()), "the sentinel value is RFC 8446 4.1.3's")
+	isSentinel := func(v ssa.Value) bool {
+		for _, l := range append(c.Origins(v, 0), v) {
+			if u, ok := l.(*ssa.UnOp); ok && u.X == ssa.Value(sentinel) {
+				return true
+			}
+			if sl, ok := l.(*ssa.Slice); ok && sl.X == ssa.Value(sentinel) {
+				return true
+			}
+			if l == ssa.Value(sentinel) {
+				return true
+			}
+		}
+		return false
+	}
+	max13 := func(v ssa.Value) (Val, bool) {
+		cl, ok := v.(*ssa.Call)
+		if !ok || !strings.HasSuffix(calleeName(&cl.Call), "Version).Equal") || len(cl.Call.Args) != 2 {
+			return unknown, false
+		}
+		var field, ver string
+		for _, a := range cl.Call.Args {
+			if _, f, _, ok := fieldLoad(a); ok && (f == "MaxVersion" || f == "MinVersion") {
+				field = f
+			}
+			if u, ok := a.(*ssa.UnOp); ok {
+				if g, ok := u.X.(*ssa.Global); ok {
+					ver = g.Name()
+				}
+			}
+		}
+		if field == "MaxVersion" && ver != "" {
+			return vBool(ver == "Version1_3"), true
+		}
+		return unknown, false
+	}
+	// (a) server
+	if gen := c.need(r, rule, pkgF12+".flight0Generate"); gen != nil {
+		r.Sites += len(gen.Blocks)
+		w := &Walk{Fn: gen, Follow: followSamePkg(gen), Assume: max13}
+		w.FromEntry()
+		marked := false
+		for in := range w.Reached {
+			cl, ok := in.(*ssa.Call)
+			if !ok || calleeName(&cl.Call) != "builtin:copy" || len(cl.Call.Args) != 2 || !isSentinel(cl.Call.Args[1]) {
+				continue
+			}
+			// destination: the tail of LocalRandom.RandomBytes
+			if sl, ok := cl.Call.Args[0].(*ssa.Slice); ok && sl.High == nil {
+				if _, f, _, ok := fieldOfAddr(sl.X); ok && f == "RandomBytes" {
+					if k, isK := constInt(sl.Low); isK && k == 28-int64(len(want)) {
+						marked = true
+					}
+					// RandomBytesLength - len(sentinel)
+					if bo, isB := sl.Low.(*ssa.BinOp); isB && bo.Op == token.SUB {
+						if k, isK := constInt(bo.X); isK && k == 28 {
+							if ln, isLen := bo.Y.(*ssa.Call); isLen && calleeName(&ln.Call) == "builtin:len" && isSentinel(ln.Call.Args[0]) {
+								marked = true
+							}
+						}
+					}
+				}
+			}
+		}
+		// and it must come after the random is drawn, on every path that returns success
+		r.Check(marked, rule, short(gen)+":marks-random", c.pos(gen.Pos()), "with DTLS 1.3 enabled the DTLS 1.2 server random ends in the sentinel", "with DTLS 1.3 enabled the function that draws the DTLS 1.2 server random does not copy the downgrade sentinel into its last eight bytes")
+	}
+	// (b) client
+	if p := c.need(r, rule, pkgF12+".flight3Parse"); p != nil {
+		r.Sites += len(p.Blocks)
+		matched := 0
+		w := &Walk{Fn: p, Follow: followSamePkg(p), Assume: func(v ssa.Value) (Val, bool) {
+			if val, ok := max13(v); ok {
+				return val, true
+			}
+			if cl, ok := v.(*ssa.Call); ok {
+				nm := calleeName(&cl.Call)
+				if (nm == "bytes.HasSuffix" || nm == "bytes.Equal") && len(cl.Call.Args) == 2 && (isSentinel(cl.Call.Args[0]) || isSentinel(cl.Call.Args[1])) {
+					matched++
+					return vBool(true), true
+				}
+			}
+			if o, ok := v.(*ssa.Extract); ok && o.Index == 1 {
+				if ta, ok := o.Tuple.(*ssa.TypeAssert); ok && strings.HasSuffix(namedOf(ta.AssertedType), "MessageServerHello") {
+					return vBool(true), true
+				}
+				if ta, ok := o.Tuple.(*ssa.TypeAssert); ok && strings.HasSuffix(namedOf(ta.AssertedType), "MessageHelloVerifyRequest") {
+					return vBool(false), true
+				}
+			}
+			return unknown, false
+		}}
+		w.FromEntry()
+		adv := ""
+		for _, ro := range w.Returns {
+			if isAdvanceReturn(ro.Ret) {
+				adv = c.ipos(ro.Ret)
+			}
+		}
+		if matched == 0 {
+			r.Bad(rule, short(p)+":checks-random", c.pos(p.Pos()), "the DTLS 1.2 client parser never compares the ServerHello random with the downgrade sentinel")
+		} else {
+			r.Check(adv == "", rule, short(p)+":checks-random", c.pos(p.Pos()), "with DTLS 1.3 enabled a ServerHello that carries the sentinel cannot advance the handshake", "with DTLS 1.3 enabled the client can advance ("+adv+") on a DTLS 1.2 ServerHello whose random ends in the downgrade sentinel")
+		}
+	}
 }
